@@ -16,7 +16,8 @@
   (c16 h.get h k) (c16 h.getattr h k) (c16 h.gett h (T k*)) (c16 h.keys h)           reads
   (c16 h.dump)                                                                       reply: `(H d0 d1 …)`, the whole heap
   `d.add` / `h.add` / `h.addh` are class-aware (`DA.addC`): for class 1 (`Dict`) they are C15's `tree_update`.
-  `h.getattr` of a name that is an attribute of the class replies `ok method`; names starting with `_` are refused.
+  `h.getattr` of a name that is an attribute of the class replies `ok method`; `h.setattr` of a name starting with `_` leaves
+  the mapping as it is (a private instance attribute, not tracked by the model).
 
   ulist elements are canonicalised (`int n` ↦ `flt 4n`, recursively) so that decidable equality of `Val`
   is python `==` on the generated elements (no bools, no NaN).
@@ -203,10 +204,7 @@ def handle (s : St) (op : String) (args : List Sexp) : Option (St × String) := 
   | "h.del", [h, k] => let h ← h.toNat?; heapOp s (.delItem h (← strOf k)) [h]
   | "h.delattr", [h, k] => let h ← h.toNat?; heapOp s (.delAttr h (← strOf k)) [h]
   | "h.get", [h, k] => let h ← h.toNat?; heapOp s (.getItem h (← strOf k)) [h]
-  | "h.getattr", [h, k] =>
-      let h ← h.toNat?
-      let k ← strOf k
-      if k.startsWith "_" then Option.none else heapOp s (.getAttr h k) [h]
+  | "h.getattr", [h, k] => let h ← h.toNat?; heapOp s (.getAttr h (← strOf k)) [h]
   | "h.gett", [h, k] => let h ← h.toNat?; heapOp s (.getT h (← strsOf k)) [h]
   | "h.keys", [h] => let h ← h.toNat?; heapOp s (.keys h) [h]
   | "h.dump", [] => pure1 ("ok (H" ++ String.join (s.2.map fun d => " " ++ daRender d) ++ ")")
